@@ -325,6 +325,17 @@ async fn scenario(a: &ShardArgs, idx: u64) {
         }
     })
     .await;
+    // what the application answers to restart requests and to the processing-delay question
+    let restart_delay: Option<(bool, u16)> = match r.below(3) {
+        0 => None,
+        1 => Some((true, r.u16())),
+        _ => Some((false, r.u16())),
+    };
+    let processing_delay = r.u16();
+    sim.mock.script(|s| {
+        s.restart_delay = restart_delay.map(|(secs, v)| if secs { crate::outstation::RestartDelay::Seconds(v) } else { crate::outstation::RestartDelay::Milliseconds(v) });
+        s.processing_delay = processing_delay;
+    });
     let state: &'static str = match kind {
         0 => "idle",
         1 => "sol-confirm-wait",
@@ -540,6 +551,30 @@ async fn scenario(a: &ShardArgs, idx: u64) {
                     );
                 } else {
                     out::count("responses_to_good_requests", 1);
+                    // content of the replies whose objects come from the application
+                    let f = &sol[0];
+                    if req.bytes.len() == 2 && f.len() >= 4 && matches!(req.func, ra::F_COLD_RESTART | ra::F_WARM_RESTART | ra::F_DELAY_MEASURE) {
+                        let want: Option<Vec<u8>> = match req.func {
+                            ra::F_DELAY_MEASURE => Some(ra::B { bytes: vec![] }.count8(52, 2, 1, &processing_delay.to_le_bytes()).bytes),
+                            _ => restart_delay.map(|(secs, v)| ra::B { bytes: vec![] }.count8(52, if secs { 1 } else { 2 }, 1, &v.to_le_bytes()).bytes),
+                        };
+                        match want {
+                            Some(w) => {
+                                if f[4..] != w[..] || f[3] & ra::IIN2_ERRORS != 0 {
+                                    cx.viol("S2_application_value", &format!("f{}", req.func), format!("function {}: the application answered {restart_delay:?} / processing delay {processing_delay}, the reply carries {} with IIN2 {:02x}", req.func, hex(&f[4..]), f[3]), Some(&req), Some(f));
+                                } else {
+                                    out::count("S2_application_value_ok", 1);
+                                }
+                            }
+                            None => {
+                                if f[3] & ra::IIN2_NO_FUNC == 0 || f.len() != 4 {
+                                    cx.viol("S2_application_value", "restart-unsupported", format!("the application does not support function {}; reply IIN2 {:02x} objects {}", req.func, f[3], hex(&f[4..])), Some(&req), Some(f));
+                                } else {
+                                    out::count("S2_restart_not_supported_ok", 1);
+                                }
+                            }
+                        }
+                    }
                 }
             }
             Expect::Unconstrained => {}
